@@ -649,13 +649,40 @@ def r4(ctx, r):
         r.expect(la.holds(fgd, e, SYNC), fgd, e, "~FlushGuard unlocked", "~FlushGuard updates teardown state without taking the mutex", okdesc="~FlushGuard locks before clearing")
     # every notify on teardownCv holds syncMutex: once a counter is seen zero under the lock nothing keeps Impl alive, so a
     # notifier that has released the lock may signal a destroyed condition variable
+    # (the guards signal it through a reference member: which members name teardownCv is read off the constructors — the member is
+    # initialised from parameter i, and every construction site in the file passes Impl::teardownCv there — not off the member's name)
+    tcv = {IMPL + "::teardownCv"}
+    for name, recs in fb.records.items():
+        if not name.startswith(IMPL + "::"):
+            continue
+        for fld in recs[0]["fields"]:
+            if not (fld["t"].startswith("std::condition_variable") and fld["t"].rstrip().endswith("&")):
+                continue
+            pidx = {x.raw["v"].get("parm") for c in fb.by_name.get(name + "::<ctor>", []) if c.ok for x in c.elems()
+                    if x.kind == "init" and x.raw.get("field") == name + "::" + fld["n"] and isinstance(x.raw.get("v"), dict) and x.raw["v"].get("k") == "var"}
+            if len(pidx) != 1 or None in pidx:
+                continue
+            i = next(iter(pidx))
+            bound = []
+            for f in fb.in_file(TFILE):
+                if not f.ok:
+                    continue
+                for n in f.nodes.values():
+                    if (n.get("k") == "ctor" and n.get("cls") == name and not n.get("copy")) or (n.get("k") == "call" and n.get("callee") == "std::make_unique" and last(name) in n.get("t", "")) or \
+                            (n.get("k") == "mcall" and last(n.get("callee", "")) == "emplace" and last(name) in ((strip_wrappers(n.get("obj")) or {}).get("t", ""))):
+                        args = [a for a in n.get("args", []) if not a.get("def")]
+                        bound.append(field_of(args[i]) if i < len(args) else None)
+            if bound and all(b == IMPL + "::teardownCv" for b in bound):
+                tcv.add(name + "::" + fld["n"])
+            elif bound and any(b == IMPL + "::teardownCv" for b in bound):
+                raise AnalysisBroken("%s::%s is bound to teardownCv at some construction sites and to something else at others" % (short(name), fld["n"]))
     nn = 0
     for f in fb.in_file(TFILE):
         if not f.ok:
             continue
         for e in f.stmts():
             n = e.node
-            if n.get("k") == "mcall" and last(n.get("callee", "")) in ("notify_one", "notify_all") and (field_of(n.get("obj")) or "").endswith("::teardownCv"):
+            if n.get("k") == "mcall" and last(n.get("callee", "")) in ("notify_one", "notify_all") and field_of(n.get("obj")) in tcv:
                 nn += 1
                 r.instance()
                 r.expect(la.holds(f, e, SYNC), f, e, "teardown notify outside lock", "%s signals teardownCv after releasing syncMutex: the teardown thread can already have seen the counters at zero "
